@@ -150,4 +150,18 @@ CHECKS = {
              "position with >=2 writes and variable-length data, distinct by history prefix",
         assumptions=["schedule of the background writer is sampled, not controlled"],
     ),
+    "C34": dict(
+        test="TestC34", level="fault_enumeration", shards=16, cmds=["mkwork", "mkrestart"], engine="crash-engine",
+        tiers=dict(quick=dict(checks=1, timeout=900, env=dict(VERIF_L1POINTS=3)), thorough=dict(checks=6, timeout=3400, env=dict(VERIF_MAXOPS=8, VERIF_L1POINTS=12))),
+        technique="two-level crash-point enumeration (crash during the recovery of a crash) over strace-recorded runs",
+        env=dict(VERIF_SHRINK="5s"),
+        rule="first level: crash states of strace-recorded generated histories at points where replay has work (plus "
+             "synthetic empty / 5-byte left-over WAL files); the production start-up on such a state is itself traced and "
+             "EVERY prefix of its mutating system calls is materialised and restarted again (left-over WALs: crashed "
+             "mid-replay, already replayed, two at once), then restarted once more; oracle: C01/C02 relations after the "
+             "final restart, exactly one WAL (the instance's own) and no .tmp after every completed start-up, own WAL "
+             "never unlinked/renamed, no left-over WAL unlinked while a replayed primary write is unsynced, a further "
+             "restart changes nothing; non-trivial = second-level crash between REPLAYINPROCESS and REPLAYED",
+        assumptions=["process-crash model at both levels", "first-level points inside the KF-03a window are not used"],
+    ),
 }
